@@ -124,12 +124,18 @@ def _postProcessPredefinedMatrixPhase(therm: GeneralThermodynamics, mobility: np
 
     Note: this assumes the user will know that "alpha" is continuously stable
     across the diffusion couple
+
+    The mobility and phase fraction arrays are ordered by the stable phases at the current composition
+    (given by the 'phases' keyword), so the alpha phase is searched for by name
+    The inputs may be stored in the hash table, so they are copied before being modified
     '''
     alpha_phase = args[0]
-    alpha_idx = therm.phases.index(alpha_phase)
-    alpha_mob = mobility[alpha_idx]
-    for i in range(mobility.shape[1]):
-        mobility[:,i][mobility[:,i] == -1] = alpha_mob[i]
+    phases = list(kwargs.get('phases', therm.phases))
+    mobility = np.array(mobility)
+    if alpha_phase in phases:
+        alpha_mob = mobility[phases.index(alpha_phase)]
+        for i in range(mobility.shape[1]):
+            mobility[:,i][mobility[:,i] == -1] = alpha_mob[i]
     return mobility, phaseFracs
 
 def _postProcessMajorityPhase(therm: GeneralThermodynamics, mobility: np.array, phaseFracs: np.array, *args, **kwargs):
@@ -137,6 +143,7 @@ def _postProcessMajorityPhase(therm: GeneralThermodynamics, mobility: np.array, 
     Takes the majority phase and applies the mobility for all other phases
     with undefined mobility
     '''
+    mobility = np.array(mobility)
     max_idx = np.argmax(phaseFracs)
     for i in range(mobility.shape[1]):
         mobility[:,i][mobility[:,i] == -1] = mobility[max_idx,i]
@@ -147,11 +154,16 @@ def _postProcessExcludePhases(therm: GeneralThermodynamics, mobility: np.array, 
     For all excluded phases, the mobility and phase fraction will be set to 0
     This assumes that user knows the excluded phases to be minor or that the
     mobility is unknown
+
+    The excluded phases are searched for by name in the stable phases at the current composition
+    (given by the 'phases' keyword), phases that are not stable there are ignored
     '''
     excluded_phases = args[0]
-    phase_idxs = [therm.phases.index(p) for p in excluded_phases]
-    for p in phase_idxs:
-        phaseFracs[p] = 0
+    phases = list(kwargs.get('phases', therm.phases))
+    phaseFracs = np.array(phaseFracs)
+    for p in excluded_phases:
+        if p in phases:
+            phaseFracs[phases.index(p)] = 0
     return mobility, phaseFracs
 
 class HomogenizationParameters:
@@ -352,7 +364,7 @@ def computeHomogenizationFunction(therm : GeneralThermodynamics, x, T, homogeniz
         phase_fracs = mobility_data.phase_fractions
         chemical_potentials[i,:] = mobility_data.chemical_potentials
 
-        mob, phase_fracs = homogenizationParameters.postProcessFunction(therm, mob, phase_fracs, *homogenizationParameters.postProcessParameters)
+        mob, phase_fracs = homogenizationParameters.postProcessFunction(therm, mob, phase_fracs, *homogenizationParameters.postProcessParameters, phases=mobility_data.phases)
         avg_mob[i] = homogenizationParameters.homogenizationFunction(mob, phase_fracs, labyrinth_factor = homogenizationParameters.labyrinthFactor)
 
     return np.squeeze(avg_mob), np.squeeze(chemical_potentials)
